@@ -23,7 +23,8 @@ type verifRecord struct {
 	SParams map[string]string `json:"sparams"`
 	Inputs  []verifInput      `json:"inputs"`
 	// assertions tagged "Cnn-" for another property are not part of this record's check
-	OnlyPrefix string `json:"only_prefix"`
+	OnlyPrefix string   `json:"only_prefix"`
+	KnownOpen  []string `json:"known_open"`
 }
 
 type verifOutcome struct {
@@ -132,7 +133,14 @@ func (verifAPI) ObserveBool(label string, v bool) {
 	verifOut.Obs[fmt.Sprintf("%03d:%s", len(verifOut.Obs), label)] = "b:" + strconv.FormatBool(v)
 }
 func (verifAPI) Known(id string, class bool) {}
-func (verifAPI) KnownOpen(id string) bool    { return false }
+func (verifAPI) KnownOpen(id string) bool {
+	for _, k := range verifCur.KnownOpen {
+		if k == id {
+			return true
+		}
+	}
+	return false
+}
 func (verifAPI) Symbolic() bool              { return false }
 func (verifAPI) Log(s string)                { fmt.Println("LOG:", s) }
 
